@@ -88,6 +88,12 @@ func (x *X) forceVisitsFrom(from, to string) {
 			x.Dec.Forced[to+s[len(from):]] = append([]int(nil), l...)
 		}
 	}
+	// the source phase may itself have been a forced replay (forced choices are not recorded)
+	for s, l := range x.Dec.Forced {
+		if strings.HasPrefix(s, from+"visit:") {
+			x.Dec.Forced[to+s[len(from):]] = append([]int(nil), l...)
+		}
+	}
 	for s := range x.Dec.fpos {
 		if strings.HasPrefix(s, to) {
 			delete(x.Dec.fpos, s)
@@ -441,10 +447,18 @@ func genC13(r *Rng, tier string) *World {
 	c.PPT = Pick(r, []float64{0, 0.2})
 	c.PValid = Pick(r, []float64{0.4, 0.7, 0.9})
 	root := GenNode(r, &c, 0, true)
+	// "leave equal values": transforms that really transform (deterministically) make the value depend on whether they ran
+	root.Walk(func(n *Node) {
+		for i := range n.PTs {
+			if n.IsPrim() && r.P(0.6) {
+				n.PTs[i].Mutate = "leaf"
+			}
+		}
+	})
 	w.Schemas = []*Node{root}
 	var ops []Op
 	for i := 0; i < 1+r.Intn(3); i++ {
-		ops = append(ops, Op{Kind: "validate", Schema: 0, Input: GenValidateInput(r, &c, root, true)})
+		ops = append(ops, Op{Kind: "validate", Schema: 0, Input: GenValidateInput(r, &c, root, true), Rev: r.P(0.3)})
 	}
 	w.Tasks = [][]Op{ops}
 	return w
@@ -464,6 +478,17 @@ func runC13(x *X) *Violation {
 		rv := x.Exec(fmt.Sprintf("0:%dv", i), &op)
 		po := op
 		po.Kind = "parse"
+		// "only if no issue exists at that moment": whether a (value-changing) PostTransform runs depends on the visit
+		// order by definition, so the parse replays the validate's struct visit orders; pools stay independent
+		ps, vs := StructSiteFor("parse"), StructSiteFor("validate")
+		if ps != "" && vs != "" {
+			from := fmt.Sprintf("v%d/visit:%s", i, vs)
+			if l, ok := x.Dec.Rec[from]; ok {
+				x.Dec.Forced[fmt.Sprintf("p%d/visit:%s", i, ps)] = append([]int(nil), l...)
+			} else {
+				x.Dec.Forced[fmt.Sprintf("p%d/visit:%s", i, ps)] = nil
+			}
+		}
 		x.SetPhase(fmt.Sprintf("p%d/", i))
 		rp := x.Exec(fmt.Sprintf("0:%dp", i), &po)
 		if rv.Panic != rp.Panic {
